@@ -6,38 +6,46 @@ LEVEL = "proof"
 MANIFEST = {
     "technique": "Coq proof over a hand-written Gallina model of mp4/crypto.go (protect ranges, getAVC/HEVCPSMaps + prot funcs, IV increment, "
                  "CTR/CBC-pattern sample crypt, EncryptFragment loop and EncryptFragment over the bytes of a fragment, saiz/senc/saio) "
-                 "composed with the C15 Gallina models of avc/hevc.ParseSliceHeader and the C06 byte model of senc/saiz/saio (read-only "
-                 "imports) + differential correspondence (extracted OCaml, instantiated with an AES-128 written in Gallina from FIPS-197, "
-                 "vs the Go code incl. the encrypted bytes and the encoded boxes) + failing-input search on real EncryptFragment output",
-    "level_text": "Theorems (coq/c07/C07Theorems.v, 20, all closed), for all NALU layouts, sizes, keys, IVs and EVERY block cipher E: the "
-                  "sub-sample entries partition the sample with every clear count < 2^16; the per-byte clear/protected classification equals "
-                  "the one the property prescribes (cenc 96..111-byte clear lead and whole 16-byte blocks; cbcs for BOTH codecs with the "
-                  "slice-header size computed by the C15 model of avc/hevc.ParseSliceHeader: C07_cbcs_shape_avc / _hevc - every video NAL "
-                  "unit whose header parses is protected exactly from byte sh_size to its end, length fields, headers and non-video NAL "
-                  "units wherever they stand are clear, and the sample crypt over these ranges is the reference 1:9 CBC pattern); "
-                  "incrementIV is big-endian addition modulo 2^(8|iv|); no counter block is reused inside a fragment WITHOUT a bound "
-                  "hypothesis (uint32 sample sizes/count give < 2^60 blocks: C07_no_counter_reuse_fragment), an 8-byte IV keeps its 8 bytes "
-                  "in the upper half of every per-sample IV with the block count in the lower half (C07_iv8_layout), across fragments the "
-                  "IV restarts (C07_cross_fragment_restart, stated to delimit the scope); CryptSampleCenc / cryptSampleCbcs equal the "
-                  "reference CTR keystream / CBC pattern over the protected bytes and the identity elsewhere; over the BYTES of a fragment "
-                  "EncryptFragment keeps every other box, appends exactly saiz, saio, senc to the traf and changes the mdat payload at most "
-                  "at protected positions (C07_fragment_only_protected); skipping saio.offset[0] bytes of the written moof lands on the "
-                  "first senc entry and cutting pieces of the saiz sizes yields exactly the per-sample entries (C07_aux_traf, entries < 256 "
-                  "bytes; beyond: refuted, known finding C07-F1). Explored, not proved: that the Go code behaves like the model "
-                  "(correspondence on generated inputs: ranges with model-computed AVC and HEVC slice header sizes on real, mutated and "
-                  "synthetic access units with dependent / non-first slice segments, unusual NAL unit placements, encrypted bytes, encoded "
-                  "saiz/saio/senc boxes) and the property predicates evaluated on real EncryptFragment output after an encode/decode "
-                  "cycle (incl. HEVC header sizes known from the harness' own bit writer and a box-by-box diff of clear vs encrypted file). "
-                  "Partial: the theorems assume that a parsed slice header is not longer than its NAL unit (true of the byte readers, not "
-                  "proved over the C15 reader model); samples with zero-length NAL units are outside wf_nalus (the code refuses them for "
-                  "cbcs or leaves them clear; covered by correspondence only).",
+                 "composed with the C15 Gallina models of avc/hevc.ParseSliceHeader on the C13 EBSP reader model, the C06 byte model of "
+                 "senc/saiz/saio and C05's SetTrunDataOffsets (read-only imports) + differential correspondence (extracted OCaml, "
+                 "instantiated with an AES-128 written in Gallina from FIPS-197, vs the Go code incl. the encrypted bytes and the encoded "
+                 "boxes) + failing-input search on real EncryptFragment output",
+    "level_text": "Theorems (coq/c07/C07Theorems.v, 29, all closed), for all NALU layouts, sizes, keys, IVs and EVERY block cipher E: the "
+                  "sub-sample entries partition the sample with every clear count < 2^16 for EVERY non-empty list of NAL units of any "
+                  "sizes, 0 (bare length field), 1, 2 included (C07_partition / C07_cenc_shape; text since /repo fix 401deba, the text "
+                  "before it refuted: C07_partition_pinned_refuted); every accepted video sample has at least one entry "
+                  "(C07_subsamples_nonempty) so no fragment mixes samples with and without entries and the auxiliary information "
+                  "describes the written senc entries for EVERY video fragment (C07_aux_traf_video; the mixed fragment of the old text "
+                  "refuted: C07_aux_mixed_pinned_refuted); the per-byte clear/protected classification equals the one the property "
+                  "prescribes (cenc 96..111-byte clear lead and whole 16-byte blocks; cbcs for BOTH codecs with the slice-header size "
+                  "computed by the C15 model of avc/hevc.ParseSliceHeader: C07_cbcs_shape_avc / _hevc - every video NAL unit whose header "
+                  "parses is protected exactly from byte sh_size to its end, a final empty NAL unit allowed; NO hypothesis on the size any "
+                  "more: C07_slice_header_size_bounded proves sh.Size <= |NAL unit| for every byte string over the parser models; a header "
+                  "that does not parse makes the sample refused: C07_cbcs_unparsable_refused); incrementIV is big-endian addition modulo "
+                  "2^(8|iv|); no counter block is reused inside a fragment without a bound hypothesis; 8-byte IV layout; CryptSampleCenc / "
+                  "cryptSampleCbcs equal the reference CTR keystream / CBC pattern; over the BYTES of a fragment EncryptFragment keeps "
+                  "every other box, appends exactly saiz, saio, senc and changes the mdat at most at protected positions "
+                  "(C07_fragment_only_protected); the moof grows by exactly |saiz|+|saio|+|senc|, so does the data offset Fragment.Encode "
+                  "writes, and every sample of the encrypted file read through the grown offset is the encrypted sample, clear outside its "
+                  "protected ranges (C07_offsets_after_encrypt; on C05's fragment structure for every trun: C07_offsets_grow_struct); "
+                  "saio.offset[0] bytes into the written moof stands the first senc entry and the saiz sizes cut exactly the entries "
+                  "(C07_aux_traf, entries < 256 bytes; beyond: refuted, known finding C07-F1). Explored, not proved: that the Go code "
+                  "behaves like the model (correspondence on generated inputs incl. empty NAL units, 4-byte samples, truncated / unknown-PPS "
+                  "slices, mixed fragments, encoded saiz/saio/senc boxes) and the property predicates evaluated on real EncryptFragment "
+                  "output after an encode/decode cycle (incl. reading every sample from the raw file through trun.data_offset). "
+                  "Partial: an empty NAL unit IN FRONT of another NAL unit is inside the partition/shape theorems for cenc only; for cbcs "
+                  "the code hands it to the slice header parser: proved refused for AVC (C07_cbcs_empty_inside_refused_avc), HEVC by "
+                  "correspondence only (what hevc.ParseSliceHeader makes of an empty NAL unit depends on the PPS); moof/traf size fields "
+                  "are C05/C02's.",
     "level_note": "Trusted: Coq kernel, extraction, OCaml/Go glue. The AVC and HEVC slice-header sizes are computed by the C15 Gallina parsers "
                   "(coq/c15/C15Model.v, C15HevcModel.v, read-only imports) from the avcC / hvcC parameter sets in the Q/H/G/T cases; the R/F "
                   "cases still feed observed sizes. Modelled, not verified: crypto/aes, cipher.NewCTR / NewCBCEncrypter "
                   "(CTR = 128-bit big-endian counter, byte-wise keystream continuation), GetFullSamples, the box encoders of the boxes "
-                  "EncryptFragment does not touch (taken as bytes), the size fields of moof/traf and trun.data_offset (recomputed by "
-                  "Fragment.Encode; C05/C06). SencBox.AddSample is modelled as EncryptFragment uses it (uniform fragments); a fragment "
-                  "mixing samples with and without sub-sample map needs a 4-byte video sample without NAL unit and is outside the property. "
+                  "EncryptFragment does not touch (taken as bytes), the size fields of moof/traf (recomputed by Fragment.Encode; C05/C06); "
+                  "trun.data_offset is modelled as moof size + 8 (C05 set_offsets, composed in C07_offsets_grow_struct). "
+                  "C07Model.protect_ranges / senc_add keep the text before the fixes 401deba / ecf1460 because coq/c06 imports them; the "
+                  "theorems and the driver use protect_ranges_r (current text); on the uniform fragments EncryptFragment can now only "
+                  "build, senc_add and C06's senc_add_r agree (C06_senc_repaired_agrees). "
                   "The Gallina AES is only the independent comparison cipher (validated against the FIPS-197 vectors inside Coq).",
 }
 
@@ -58,17 +66,17 @@ def run(ctx):
         "CryptSampleCenc, cryptSampleCbcs, cbcsCrypt, incrementIV, EncryptFragment loop + saio offset), SaizBox.AddSampleInfo, "
         "SencBox.AddSample/EncodeSWNoHdr; C07CodecModel.v: getAVCPSMaps/getHEVCPSMaps/get*ProtFunc over the C15 parser models; "
         "C07TrafModel.v: EncryptFragment over the bytes of a fragment with the C06 encoders of senc/saiz/saio",
-        "imported models (read-only): coq/c15/C15Model.v, C15HevcModel.v (parameter sets, slice headers), coq/c06/C06SencModel.v",
+        "imported models (read-only): coq/c15/C15Model.v, C15HevcModel.v (parameter sets, slice headers), coq/c13/C13Model.v (EBSP reader), "
+        "coq/c06/C06SencModel.v, coq/c05/C05FragModel.v + C05OffProofs.v (SetTrunDataOffsets)",
         "spec: coq/c07/C07Spec.v (per-byte mask of the property, reference CTR keystream, reference walk), written by hand",
         "coq/c07/C07Aes.v: AES-128 from FIPS-197, checked against the FIPS-197 / SP 800-38A vectors by vm_compute; used only as the "
         "independent cipher of the correspondence",
         "crypto/aes, crypto/cipher (CTR, CBC) of the Go standard library: modelled from their documentation",
     ]
-    ctx.assumptions += ["samples are concatenations of 4-byte-length-prefixed non-empty NAL units, total size < 2^32",
+    ctx.assumptions += ["samples are concatenations of 4-byte-length-prefixed NAL units (empty ones included), total size < 2^32",
                         "the block cipher maps 16-byte blocks to 16-byte blocks (nothing else is assumed about it)",
                         "one traf / one trun per fragment (EncryptFragment rejects anything else)",
                         "sample sizes and the number of samples of a fragment are below 2^32 (trun fields)",
-                        "a parsed slice header is not longer than its NAL unit (hypothesis of the cbcs theorems)",
                         "mp4ff-encrypt restarts from the same IV in every fragment: counter blocks repeat ACROSS the fragments of a "
                         "file encrypted with one key (the property speaks about one fragment; C07_cross_fragment_restart)"]
     exe, model = build(ctx)
@@ -109,8 +117,10 @@ def run(ctx):
                         "mutated headers, synthetic HEVC access units from the harness' own bit writer: dependent and non-first slice segments, "
                         "dims off the CTB grid, RPS in slice/SPS, long-term pics, list modification, entry points, header extension, emulation "
                         "prevention in the header; AUD/SEI/filler/EOS/EOB placements, trailing non-video NALUs, zero-length NALUs, 1-3-byte "
-                        "NALUs, slices shorter than their header, samples without video NALU); G EncryptFragment with model-built parameter-set "
-                        "maps; T EncryptFragment over the bytes of the fragment (encoded traf children incl. the written saiz/saio/senc)",
+                        "NALUs, slices shorter than their header / cut inside it in front of further NAL units, slices naming an unknown PPS id, "
+                        "4-byte samples, several trailing empty NALUs, in-band parameter sets, samples without video NALU); G EncryptFragment "
+                        "with model-built parameter-set maps; T EncryptFragment over the bytes of the fragment (encoded traf children incl. the "
+                        "written saiz/saio/senc; one fragment in three mixes normal samples with a 4-byte sample / a trailing empty NAL unit)",
     }
     ctx.cov["samples"] += [l[:300] for l in lines[60:63]] + [l[:300] for l in lines[-2:]]
     ctx.log("correspondence: %d cases, %d mismatches" % (len(lines), len(mism)))
@@ -148,7 +158,7 @@ def run(ctx):
     ctx.cov["rule"] = ("corr: %d case lines (kinds %s); distinct = distinct case lines; search: %d random fragments through InitProtect/"
                        "EncryptFragment/encode/decode with the clauses of the property evaluated in the harness (partition, per-byte shape, "
                        "saiz/saio vs the encoded senc, IV sequence, Go crypto/aes driven by the harness' own CTR / CBC-pattern loops, "
-                       "trun/tfdt unchanged, box-by-box diff of the encoded clear and encrypted files (same boxes + saiz/saio/senc, trun data offset shifted by the added bytes, mdat equal outside the senc maps); 1/3 of the video fragments use a synthetic HEVC configuration whose slice header sizes are known from the harness' bit writer; unusual-but-valid NALU placements in every second video fragment; 0-2 other encrypted fragments in front (non-zero moof start), InitProtectData via ExtractInitProtectData on the re-decoded init in 1/4 of the runs, AES-192/256 keys in 1/9)" % (len(lines), kinds, ns))
+                       "trun/tfdt unchanged, box-by-box diff of the encoded clear and encrypted files (same boxes + saiz/saio/senc, trun data offset shifted by the added bytes, mdat equal outside the senc maps), every sample read from the RAW encoded file at moof start + trun.data_offset + sizes before = reference cipher output; 1/5 of the video fragments carry empty NAL units (trailing / inside for cenc / the 4-byte sample), 1/12 a clear run of exactly 65534..65537 / 131070..131072 bytes; 1/3 of the video fragments use a synthetic HEVC configuration whose slice header sizes are known from the harness' bit writer; unusual-but-valid NALU placements in every second video fragment; 0-2 other encrypted fragments in front (non-zero moof start), InitProtectData via ExtractInitProtectData on the re-decoded init in 1/4 of the runs, AES-192/256 keys in 1/9)" % (len(lines), kinds, ns))
 
 
 def replay(ctx, path):
